@@ -11,7 +11,8 @@ MODULES = ["Univers.Props.C05"]
 LEVEL = "proof"
 # function-level tie for the text layer (translator + agreement theorems): see runner step 3a
 TIE_THEOREMS = {"Univers.Text.GenTextThm": ["Univers.Gen.Text.py_remove_spaces_eq", "Univers.Gen.Text.vc_split_eq", "Univers.Gen.Text.vc_from_string_eq", "Univers.Gen.Text.vc_str_eq", "Univers.Gen.Text.vc_to_dict_eq"], "Univers.Text.GenRangeTextThm": ["Univers.Gen.Text.vr_from_string_eq", "Univers.Gen.Text.fromStringFull_plain"],
-                "Univers.Text.GenRangeStrThm": ["Univers.Gen.Text.vr_str_eq", "Univers.Gen.Text.vr_to_dict_eq"]}
+                "Univers.Text.GenRangeStrThm": ["Univers.Gen.Text.vr_str_eq", "Univers.Gen.Text.vr_to_dict_eq"],
+                "Univers.Text.GenVersExact": ["Univers.Gen.Text.py_from_string_exact", "Univers.Gen.Text.py_from_string_presentation_independent"]}
 RULE = ("(1) the vers text layer of the real code against the Lean model on generated vers strings of every registered scheme "
         "(valid, decorated, mutated); (2) for every range class of the library and seeded constraint lists (any comparators, any "
         "count, any construction order, versions from the scheme's grammar without vers delimiters): str(range) parsed back "
